@@ -11,7 +11,7 @@
 (*   pooling, sched (-1 = None), rounds: [ [ {ov, at, recs:[{id, dup:[bool per read], rc:[..],   *)
 (*              af:[..], tf:[..]}]} per molecule ] per round ]                                   *)
 (* ev = "sched" (C07) one sorted fragment sequence under every schedule / pooling method:        *)
-(*   runs: [{sched, pooling, raised, emits:[{at, ids}]}],  model: groups the design model expects  *)
+(*   runs: [{sched, pooling, raised, emits:[{at, ids}], reuse?}],  model: groups the design model expects  *)
 (*              for runs[1] when the sequence is a TLC scenario ([] otherwise)                    *)
 EXTENDS TraceLib, Util, MolAssignProps
 
@@ -52,6 +52,8 @@ RoundVerdict(e, round) ==
        ELSE IF e.cap = 0 /\ ovs # {} THEN "Inv_C06_Exact_overflow_without_cap"
        ELSE IF e.cap > 0 /\ \E k \in real : Len(em[k].ids) > e.cap THEN "Inv_C06_Counts_cap_exceeded"
        ELSE IF ExactApplies(e) /\ ~Exact(F, Valid(F) \ ovIds, { SeqSet(em[k].ids) : k \in real }) THEN "Inv_C06_Exact"
+       ELSE IF e.hd > 0 /\ e.cap = 0 /\ (e.radius = 0 \/ e.kind = "nla") /\ ~PlainAmbiguous(e)
+               /\ ~ExactHD(e.hd, F, Valid(F), { SeqSet(em[k].ids) : k \in DOMAIN em }) THEN "Inv_C06_Exact_unambiguous_umi_classes"
        ELSE IF ExactApplies(e) /\ \E k \in ovs : ~\E r \in real : Len(em[r].ids) = e.cap /\ SameClass(F[em[r].ids[1]], F[em[k].ids[1]])
             THEN "Inv_C06_Exact_overflow_not_from_full_class"
        ELSE IF \E k \in DOMAIN round : \E j \in DOMAIN round[k].recs :
@@ -82,8 +84,11 @@ LibVerdict(e) ==
 (* C07 *)
 InRegion(e) == C07Region(e.frags, IF e.kind = "nla" THEN 0 ELSE e.radius, e.cache) /\ SortedInput(e.frags, e.readlen)
 
-RunOf(e, sched, pooling) == CHOOSE k \in DOMAIN e.runs : e.runs[k].sched = sched /\ e.runs[k].pooling = pooling
-HasRun(e, sched, pooling) == \E k \in DOMAIN e.runs : e.runs[k].sched = sched /\ e.runs[k].pooling = pooling
+(* reference runs are fresh iterators; runs marked `reuse` are the second pass over an iterator object whose   *)
+(* first pass was abandoned after the first emitted molecule (history): judged like any other run            *)
+Fresh(r) == ~Has(r, "reuse")
+RunOf(e, sched, pooling) == CHOOSE k \in DOMAIN e.runs : Fresh(e.runs[k]) /\ e.runs[k].sched = sched /\ e.runs[k].pooling = pooling
+HasRun(e, sched, pooling) == \E k \in DOMAIN e.runs : Fresh(e.runs[k]) /\ e.runs[k].sched = sched /\ e.runs[k].pooling = pooling
 
 RunVerdict(e, k) ==
     LET r == e.runs[k] F == e.frags IN
@@ -101,6 +106,7 @@ SchedVerdict(e) ==
     IF \E k \in DOMAIN e.runs : RunVerdict(e, k) # "ok"
     THEN LET k == CHOOSE k \in DOMAIN e.runs : RunVerdict(e, k) # "ok" /\ \A j \in 1 .. (k - 1) : RunVerdict(e, j) = "ok"
          IN RunVerdict(e, k) \o " sched=" \o ToString(e.runs[k].sched) \o " pooling=" \o ToString(e.runs[k].pooling)
+                \o (IF Has(e.runs[k], "reuse") THEN " reuse" ELSE "")
     ELSE "ok"
 
 (* informational: outside the verified region / ambiguous plain library / D-level divergence from the model *)
